@@ -183,6 +183,9 @@ fn check_doc(o: &mut Outcome, doc: &str, has_dup_registered: bool) {
     };
     let generic: Option<Value> = serde_json::from_str(doc).ok();
     match (&lib, &generic) {
+        (Some(c), Some(v)) if !v.is_object() => {
+            o.violate("decode/accepted-non-object", "claims were decoded from a JSON document that is not an object", json!({"doc": doc, "decoded": format!("{c:?}")}));
+        }
         (Some(c), Some(v)) => {
             // whenever decoding succeeds every claim equals what the generic parser reads for that member
             let exp = (generic_claim_str(v, "iss"), generic_claim_str(v, "sub"), generic_claim_str(v, "aud"), generic_claim_ts(v, "exp"), generic_claim_ts(v, "nbf"), generic_claim_ts(v, "iat"), generic_claim_str(v, "jti"));
@@ -219,7 +222,7 @@ fn decoder_sub(maxlen: usize) -> Sub {
             let mut o = Outcome::new();
             o.evals = 0;
             if idx == nm {
-                for doc in ["{}", "[]", "null", "\"iss\"", "5", "", "{", "{\"iss\":\"a\"", "[{\"iss\":\"a\"}]", "{\"iss\":\"a\"} x", " {\"iss\":\"a\"} ", "{\"iss\":\"a\",}", "\u{feff}{}"] {
+                for doc in ["{}", "[]", "null", "\"iss\"", "5", "", "{", "{\"iss\":\"a\"", "[{\"iss\":\"a\"}]", "{\"iss\":\"a\"} x", " {\"iss\":\"a\"} ", "{\"iss\":\"a\",}", "\u{feff}{}", "[\"issuer\",\"admin\"]", "[null,null,null,null,null,null,null]", "[\"a\",\"b\",\"c\",\"2024-01-01T00:00:00Z\",\"2023-01-01T00:00:00Z\",\"2023-06-01T00:00:00Z\",\"j\"]", "[\"a\"]", "true", "0", "\"\""] {
                     check_doc(&mut o, doc, false);
                 }
                 for m in ms.iter() {
